@@ -8,7 +8,8 @@ open TD.C03 (Bytes Value ObName Rec floatVal FVal encodeEflr)
 
 /-! Line-protocol driver for C04.
 
-lp        := <nft> {<o> <c> <identhex> <nch> {<identhex> <rc> <ndims> {<dim>}}}
+lp        := <ndefs> {<identhex> <rc> <ndims> {<dim>}}  <nft> {<o> <c> <identhex> <nch> {<identhex>}}
+             (CHANNEL set objects in definition order; FRAME objects listing their channels by name)
 frames    := <n> {<ft> <frameNo> (N | V {per channel: <k> {val}})}        val := i<int> | w<code>.<word>
 recs      := <n> {<enc> <eflr> <type> <hex>}
 sel       := A | S <a> <b> <c> | M <n>          (all / slice (N = None) / sample)
@@ -43,12 +44,22 @@ def pVal : P Value := do
     | _ => failure
   | _ => failure
 
-def pLp : P (List FrameType) := do
+/-- CHANNEL set objects in definition order, FRAME objects each listing channel identifiers; the log pass is built by
+the model (`buildLogPass`: channels picked by name in the Frame's order).  A Frame listing an undefined channel does
+not parse (the harness generates none). -/
+def pLpDefs : P (List Chan × List FrameType) := do
+  let nd ← pNat
+  let defs ← pRep (do let id ← pHex; let rc ← pNat; let nd ← pNat; let dims ← pRep pNat nd; pure (⟨id, rc, dims⟩ : Chan)) nd
   let n ← pNat
-  pRep (do
+  let frames ← pRep (do
     let o ← pNat; let c ← pNat; let i ← pHex; let k ← pNat
-    let chans ← pRep (do let id ← pHex; let rc ← pNat; let nd ← pNat; let dims ← pRep pNat nd; pure (⟨id, rc, dims⟩ : Chan)) k
-    pure (⟨⟨o, c, i⟩, chans⟩ : FrameType)) n
+    let ids ← pRep pHex k
+    pure ((⟨o, c, i⟩ : ObName), ids)) n
+  match buildLogPass defs frames with
+  | .ok lp => pure (defs, lp)
+  | .error _ => failure
+
+def pLp : P (List FrameType) := do let r ← pLpDefs; pure r.2
 
 def pFrames (lp : List FrameType) : P (List FrameA) := do
   let n ← pNat
@@ -82,6 +93,7 @@ def showErr : Err → String
   | .repCode => "err ExceptionRepCode"
   | .frameChannel => "err ExceptionFrameChannel"
   | .frameArray => "err ExceptionFrameArray"
+  | .frameArrayInit => "err ExceptionFrameArrayInit"
   | .other _ => "err other"
 
 def showF : FVal → String
@@ -118,10 +130,10 @@ def runCalls (ft : FrameType) (recs : List Rec) (posmap : List (ObName × List I
 def step (line : String) : String :=
   match line.splitOn " " with
   | "encfile" :: rest =>
-    match (do let lp ← pLp; let fr ← pFrames lp; pure (lp, fr)).run rest with
-    | some ((lp, fr), []) =>
+    match (do let dl ← pLpDefs; let fr ← pFrames dl.2; pure (dl.1, dl.2, fr)).run rest with
+    | some ((defs, lp, fr), []) =>
       let recs : List Rec := [⟨false, true, 0, encodeEflr fhTable {}⟩, ⟨false, true, 1, encodeEflr orTable {}⟩,
-        ⟨false, true, 3, encodeEflr (channelTable lp) {}⟩, ⟨false, true, 4, encodeEflr (frameTable lp) {}⟩] ++
+        ⟨false, true, 3, encodeEflr (channelTable defs) {}⟩, ⟨false, true, 4, encodeEflr (frameTable lp) {}⟩] ++
         fr.map (frameRec lp)
       " ".intercalate (toString recs.length :: recs.map showRec)
     | _ => "bad-op"
